@@ -146,6 +146,12 @@ def rewrite_body(body, rewrites):
         rewrites.add('compound-rem-assign')
         return '%s = %s %% %s;' % (m.group(1), m.group(1), m.group(2))
     body = re.sub(r'\b([A-Za-z_][A-Za-z0-9_]*)\s*%=\s*([^;]+);', repl, body)
+
+    # rewrite 6: `X as f64 / Y as f64` (X, Y integer-valued names) -> named IEEE wrappers with uninterpreted specs
+    def ieee(m):
+        rewrites.add('ieee-ops-named')
+        return 'ieee_div(ieee_from_i64(%s as i64), ieee_from_i64(%s as i64))' % (m.group(1), m.group(2))
+    body = re.sub(r'\b([A-Za-z_][A-Za-z0-9_:]*)\s+as\s+f64\s*/\s*([A-Za-z_][A-Za-z0-9_:]*)\s+as\s+f64\b', ieee, body)
     return body
 
 
